@@ -2065,6 +2065,32 @@ func (l *Lowerer) externalCall(callee *types.Func, recv *Term, recvTyp types.Typ
 		l.store(lv.pl, r.sMk(w.Sort, nat, r.sOff(w), r.sLen(w), r.sCap(w), r.sNil(w)))
 		l.note("T-stdlib: encoding/binary.PutVarint/PutUvarint write exactly sz bytes that Varint/Uvarint decode back")
 		return []*Term{n}
+	case "sync/atomic.AddInt64", "sync/atomic.AddInt32", "sync/atomic.LoadInt64", "sync/atomic.LoadInt32",
+		"sync/atomic.StoreInt64", "sync/atomic.StoreInt32":
+		// T-stdlib: an atomic operation on &x.f is the plain operation on the field (sequential verification: the
+		// atomicity is what makes the sequential reading adequate for this one cell)
+		if ue, ok := ast.Unparen(ce.Args[0]).(*ast.UnaryExpr); ok && ue.Op == token.AND {
+			pl := l.placeOf(ue.X)
+			if pl != nil {
+				cur := l.load(pl)
+				wrap := "wrap64"
+				if strings.HasSuffix(callee.Name(), "32") {
+					wrap = "wrap32"
+				}
+				l.note("T-stdlib: sync/atomic integer operations read/update the addressed field")
+				switch {
+				case strings.HasPrefix(callee.Name(), "Add"):
+					nv := App(wrap, "Int", Add(cur, args[1]))
+					l.store(pl, nv)
+					return []*Term{l.load(pl)}
+				case strings.HasPrefix(callee.Name(), "Load"):
+					return []*Term{cur}
+				default:
+					l.store(pl, args[1])
+					return nil
+				}
+			}
+		}
 	case "(*sync.Mutex).Lock", "(*sync.RWMutex).Lock", "(*sync.RWMutex).RLock":
 		l.lockOp(recv, true, ce)
 		return nil
